@@ -2,8 +2,8 @@
    verified validator, crash scenarios replayed on the model and compared with
    what the real builds left behind, system-call traces of real builds checked
    against the population protocols. *)
-From Apko Require Export Base.Prelude Model.Cache Spec.CacheSpec.
-From Apko Require Import Generated.C19Cache.
+From Apko Require Export Base.Prelude Model.Cache Spec.CacheSpec Model.CacheFlight Spec.CacheFlightSpec.
+From Apko Require Import Proofs.CacheFlightProofs Generated.C19Cache.
 Open Scope string_scope. Open Scope list_scope.
 
 (* the order of cachePackage's AdvertiseCachedFile calls in the source of this run
@@ -25,7 +25,9 @@ Record bspec := {
   b_idir : string; b_etag : string;      (* index directory, etag the origin serves when the HEAD is answered *)
   b_etag_get : string;                   (* ... and when the GET is answered (differs if the repository is updated in between) *)
   b_pdir : string; b_apk : apk;          (* package directory and the package served now *)
-  b_crash : crash
+  b_crash : crash;
+  b_prune : bool                         (* before this build <datahash>.dat.tar was removed from the package's directory
+                                            ("old caches without the uncompressed file": PackageData's rebuild) *)
 }.
 
 Definition origin_of (tab : origin_table) : path -> content :=
@@ -58,7 +60,8 @@ Definition run_prog := run_prog_srv (srv_m "" "").
 
 (* one build process with temporary-name identities o (index) and o+1 (package);
    returns the disk and whether the process ran to the end *)
-Definition model_build (d : disk) (o : nat) (b : bspec) : disk * bool :=
+Definition model_build (d0 : disk) (o : nat) (b : bspec) : disk * bool :=
+  let d := if b_prune b then upd d0 (PMember (b_pdir b) MTar (a_dath (b_apk b))) None else d0 in
   (* fetchAndCache: HEAD, Stat of the HEAD etag's name, GET, retrieveAndSaveFile; [CrashIdx k] counts
      the steps of retrieveAndSaveFile (the three before it touch nothing) *)
   let srv := srv_m (b_etag b) (b_etag_get b) in
@@ -153,14 +156,108 @@ Definition check_trace (c : trace_case) : list string :=
   tag_if (negb (accepts (tprog (origin_of (tc_tab c)) (tc_owner c) (tc_builder c)) (tc_trace c)))
          "mismatch:trace-not-accepted-by-protocol".
 
+(* ---- request coalescing ------------------------------------------------------------
+   The object a case talks about, with the configuration the model runs it in: read from
+   the SHAPE of the source on this run (goextract), never written down here. *)
+Inductive fobj :=
+| FFlight          (* flightCache.Do (through the real object, and the key-discovery instance of a Cache) *)
+| FHeadEtag        (* cacheTransport.head with NewCache(true) *)
+| FHeadNoEtag      (* cacheTransport.head with NewCache(false): Cache.load/store do nothing *)
+| FGet             (* cacheTransport.get *)
+| FApkOnce.        (* apkCache.get, observed through whole builds of one process *)
+
+Definition etag_guards_ok : bool :=
+  list_eqb String.eqb etag_cache_guards ["Cache.load:nil-etag-cache-returns"; "Cache.store:nil-etag-cache-returns"].
+
+Definition conf_of_obj (o : fobj) : option fconf :=
+  match o with
+  | FFlight => conf_of_shape flight_do_shape
+  | FHeadEtag => conf_of_shape head_shape
+  | FHeadNoEtag =>
+      (* without an etag cache nothing is looked up or stored: a bare group *)
+      match conf_of_shape head_shape with
+      | Some _ => if etag_guards_ok then Some conf_singleflight else None
+      | None => None
+      end
+  | FGet => conf_of_shape get_shape
+  | FApkOnce => conf_of_once_shape apk_cache_shape
+  end.
+
+(* the tag for "an error was handed out without executing fn again" names the site *)
+Definition err_tag (o : fobj) : string :=
+  match o with
+  | FFlight => "viol:flight-cache-memoises-an-error"
+  | FHeadEtag | FHeadNoEtag => "viol:head-error-memoised-for-the-process"
+  | FGet => "viol:get-error-memoised-for-the-process"
+  | FApkOnce => "viol:package-fetch-error-memoised-for-the-process"
+  end.
+
+Definition ocall_eqb (a b : ocall) : bool :=
+  String.eqb (oc_key a) (oc_key b) && Bool.eqb (oc_exec a) (oc_exec b) && outcome_eqb (oc_res a) (oc_res b).
+
+(* a sequence of calls made one after the other: scripted outcome of each execution of fn, and
+   what was observed (was fn executed; what was returned) *)
+Record flight_seq_case := { fs_obj : fobj; fs_calls : list (string * outcome); fs_observed : list ocall }.
+Definition check_flight_seq (c : flight_seq_case) : list string :=
+  validate_seq (err_tag (fs_obj c)) [] (fs_observed c) ++
+  match conf_of_obj (fs_obj c) with
+  | None => ["mismatch:coalescing-shape-not-recognised"]
+  | Some cf => tag_if (negb (list_eqb ocall_eqb (model_seq cf (fs_calls c)) (fs_observed c)))
+                      "mismatch:sequence-of-calls-differs-from-model"
+  end.
+
+(* n callers of one key arriving while the leader's execution is held; execution number i
+   returns the value "v<i>".  Observed: how many executions there were, what each caller got. *)
+Record flight_conc_case := { fc_obj : fobj; fc_key : string; fc_callers : nat;
+                             fc_execs : list outcome;       (* what the executions returned, in order *)
+                             fc_results : list outcome }.   (* what the callers were handed *)
+Definition conc_trace (k : string) (n : nat) (o : outcome) : list fevent :=
+  List.flat_map (fun c => [ELoad c k; EEnter c k]) (List.seq 0 n) ++ [EFinish k o].
+Definition check_flight_conc (c : flight_conc_case) : list string :=
+  (* transparency: every caller was handed the result of one of the executions *)
+  tag_if (negb (List.forallb (fun r => List.existsb (outcome_eqb r) (fc_execs c)) (fc_results c)))
+         "viol:call-returns-a-value-no-execution-produced" ++
+  tag_if (negb (Nat.eqb (List.length (fc_results c)) (fc_callers c))) "viol:a-caller-got-no-result" ++
+  match conf_of_obj (fc_obj c), fc_execs c with
+  | None, _ => ["mismatch:coalescing-shape-not-recognised"]
+  | Some cf, [o] =>
+      (* all callers were coalesced into one execution: exactly the model's run *)
+      let s := frun cf finit (conc_trace (fc_key c) (fc_callers c) o) in
+      tag_if (negb (list_eqb outcome_eqb (List.map snd (rets s)) (fc_results c) && Nat.eqb (List.length (started s)) 1))
+             "mismatch:coalesced-callers-differ-from-model"
+  | Some _, _ => []     (* a caller arrived after the flight had ended (timing): only the validator applies *)
+  end.
+
+(* ---- fetchOffline -------------------------------------------------------------------- *)
+(* a real directory (entries in os.ReadDir order, modification times ranked) and the entry the
+   real fetchOffline opened for a request for [of_req] ("" = it returned an error) *)
+Record offline_case := { of_req : string; of_entries : list dentry; of_picked : string }.
+Fixpoint find_entry (n : string) (l : list dentry) : option dentry :=
+  match l with [] => None | e :: t => if String.eqb (de_name e) n then Some e else find_entry n t end.
+Definition check_offline (c : offline_case) : list string :=
+  let m := pick_newest (of_entries c) in
+  tag_if (negb (String.eqb (match m with Some e => de_name e | None => "" end) (of_picked c)))
+         "mismatch:offline-pick-differs-from-model" ++
+  match of_picked c, find_entry (of_picked c) (of_entries c) with
+  | EmptyString, _ => tag_if (negb (match of_entries c with [] => true | _ => false end)) "viol:offline-fails-on-a-non-empty-directory"
+  | _, None => ["viol:offline-pick-not-newest"]
+  | _, Some e => validate_offline (of_req c) (of_entries c) e
+  end.
+
 (* ---- one case type for the generated files -------------------------------------- *)
 Inductive c19_case :=
 | CListing (c : listing_case)
 | CScenario (c : scenario_case)
-| CTrace (c : trace_case).
+| CTrace (c : trace_case)
+| CFlightSeq (c : flight_seq_case)
+| CFlightConc (c : flight_conc_case)
+| COffline (c : offline_case).
 Definition check_c19 (c : c19_case) : list string :=
   match c with
   | CListing c => check_listing c
   | CScenario c => check_scenario c
   | CTrace c => check_trace c
+  | CFlightSeq c => check_flight_seq c
+  | CFlightConc c => check_flight_conc c
+  | COffline c => check_offline c
   end.
